@@ -307,48 +307,148 @@ def float_checks(seed, quick):
         ev += 1
         if abs(a / exact - 1) > 2e-5 * np.log(f2_ / f1_):
             return ev, dict(what="psd.area of a segment with slope %g differs from the integral of the log-log interpolation by more than the 1e-5 band allows" % s, got=float(a), exact=float(exact))
-    # 2. rescale: mean-square of every output band preserved (linear input bands of width 1, output bands of width 5 whose edges coincide with input edges)
-    for it in range(3 if quick else 30):
-        F = np.arange(10.0, 200.0 + 0.5, 1.0)
+    # 2. rescale: the mean-square content of EVERY output band equals the integral of the input PSD (piecewise constant on its own bands) over that band;
+    #    linear and logarithmic input scales x linear, logarithmic and 1/n-octave output scales x extendends, one and two columns
+    def edges(fc):
+        d = np.diff(fc)
+        if (abs(d / d[0] - 1.0) < 1e-12).all():
+            return fc - d[0] / 2, fc + d[0] / 2
+        mid = np.sqrt(fc[:-1] * fc[1:])
+        return np.hstack((mid[0] / fc[1] * fc[0], mid)), np.hstack((mid, fc[-1] / mid[-1] * fc[-1]))
+
+    def band_integral(lo, hi, FLi, FUi, P):
+        ov = np.clip(np.minimum(hi, FUi) - np.maximum(lo, FLi), 0, None)
+        return ov @ P
+    for it in range(6 if quick else 40):
+        if it % 2 == 0:
+            F = np.arange(10.0, 400.0 + 0.25, [1.0, 2.5, 0.5][it % 3])
+        else:
+            F = np.geomspace(8.0, 900.0, [40, 75, 23][it % 3])
         P = np.abs(rng.randn(F.size, 2)) + 0.1
-        fo = np.arange(12.0, 198.0, 5.0)
-        with warnings.catch_warnings():
-            warnings.simplefilter("ignore")
-            Pout, Fctr, msv, ms = psd.rescale(P, F, freq=fo, extendends=False)
-        ev += 1
-        want = np.array([[P[(F >= c - 2.5) & (F <= c + 2.5), col].sum() * 1.0 for col in range(2)] for c in Fctr])
-        if Pout.shape != (len(Fctr), 2) or not np.allclose(ms, want, rtol=1e-9) or not np.allclose(Pout * 5.0, ms, rtol=1e-9):
-            return ev, dict(what="psd.rescale does not preserve the mean-square content of the output bands (aligned linear bands)",
-                            max_rel_err=float(abs(ms / want - 1).max()) if ms.shape == want.shape else None)
-    # 3. fixtime: exactly uniform output whose samples are the nearest input samples; uniform data unchanged
-    for it in range(4 if quick else 40):
+        FLi, FUi = edges(F)
+        for mode in ("linear-out", "log-out", "n_oct"):
+            for ext in (False, True):
+                kw = dict(extendends=ext)
+                if mode == "linear-out":
+                    fo = np.arange(F[0] + 3.3, F[-1] - 2.0, 7.3)
+                    kw["freq"] = fo
+                elif mode == "log-out":
+                    fo = np.geomspace(F[0] * 1.07, F[-1] * 0.93, 17)
+                    kw["freq"] = fo
+                else:
+                    kw["n_oct"] = [3, 6, 1][it % 3]
+                with warnings.catch_warnings():
+                    warnings.simplefilter("ignore")
+                    Pout, Fctr, msv, ms = psd.rescale(P, F, **kw)
+                    Pout1 = psd.rescale(P[:, 0], F, **kw)[0]
+                ev += 1
+                if mode == "n_oct":
+                    _, FLo, FUo = psd.get_freq_oct(kw["n_oct"], exact=True, frange=(1.0, F[-1]))
+                    keep = [i for i, fc in enumerate(psd.get_freq_oct(kw["n_oct"], exact=True, frange=(1.0, F[-1]))[0]) if np.any(np.isclose(Fctr, fc))]
+                    FLo, FUo = FLo[keep], FUo[keep]
+                else:
+                    FLo, FUo = edges(fo)
+                    sel = [i for i, fc in enumerate(fo) if np.any(np.isclose(Fctr, fc))]
+                    FLo, FUo = FLo[sel], FUo[sel]
+                if len(FLo) != len(Fctr):
+                    return ev, dict(what="psd.rescale: output band centres are not a contiguous subset of the requested scale", mode=mode)
+                want = np.array([[band_integral(lo, hi, FLi, FUi, P[:, c]) for c in range(2)] for lo, hi in zip(FLo, FUo)])
+                inner = slice(1, -1) if ext else slice(None)
+                width = (FUo - FLo)[:, None]
+                prob = None
+                if not np.allclose(ms[inner], want[inner], rtol=1e-9, atol=1e-12):
+                    prob = "mean-square of an output band differs from the integral of the input PSD over that band"
+                elif not np.allclose(Pout[inner] * width[inner], ms[inner], rtol=1e-9):
+                    prob = "output PSD is not mean-square / bandwidth"
+                elif not np.allclose(msv, ms.sum(axis=0), rtol=1e-12):
+                    prob = "msv is not the sum of the band mean-squares"
+                elif not np.allclose(Pout1, Pout[:, 0], rtol=1e-12):
+                    prob = "1-D input gives a different result than the same column of a 2-D input"
+                elif ext:
+                    for k_ in (0, -1):
+                        cov = min(FUo[k_], FUi[-1]) - max(FLo[k_], FLi[0])
+                        if cov > 0 and not np.allclose(Pout[k_], want[k_] / cov, rtol=1e-9):
+                            prob = "extendends: the end band's PSD is not (covered mean-square) / (covered bandwidth)"
+                if prob:
+                    return ev, dict(what="psd.rescale: " + prob, input_scale="linear" if it % 2 == 0 else "log", output=mode, extendends=ext)
+    # 3. fixtime: exactly uniform output whose samples are the nearest (or previous) input samples; uniform data unchanged
+    for it in range(6 if quick else 40):
         sr = [100.0, 250.0, 1000.0][it % 3]
         n = rng.randint(200, 600)
-        t = np.arange(n) / sr + rng.uniform(-5, 5)
+        t0_ = rng.uniform(-5, 5)
+        t = np.arange(n) / sr + t0_
         y = rng.randn(n)
         with warnings.catch_warnings():
             warnings.simplefilter("ignore")
             tn, yn = dsp.fixtime((t, y), sr=sr, verbose=False)
-        ev += 1
+            tn2, yn2 = dsp.fixtime((t, y), sr=sr, verbose=False, hold_previous_value=True)
+            tn3, yn3 = dsp.fixtime((t, y), sr="auto", verbose=False)   # sample rate detected
+        ev += 3
         if not (len(tn) == n and np.allclose(tn, t, atol=1e-9 / sr) and np.array_equal(yn, y)):
             return ev, dict(what="fixtime changed already-uniform data", sr=sr, n=int(n))
-        # jitter + drop-outs + a gap
+        if not (len(tn2) == n and np.array_equal(yn2, y)):
+            return ev, dict(what="fixtime(hold_previous_value=True) changed already-uniform data", sr=sr, n=int(n))
+        if not (len(tn3) == n and np.array_equal(yn3, y)):
+            return ev, dict(what="fixtime with auto-detected sample rate changed already-uniform data", sr=sr, n=int(n))
+        # jitter + isolated missing samples + a gap + a few out-of-order samples
         tj = t + rng.uniform(-0.3, 0.3, n) / sr
         keep = np.ones(n, bool)
-        keep[rng.choice(n, 8, replace=False)] = False
+        keep[rng.choice(np.arange(5, n - 5), 8, replace=False)] = False
         g0 = rng.randint(20, n - 60)
         keep[g0:g0 + rng.randint(3, 25)] = False
         tj, yj = tj[keep], y[keep]
+        if it % 2:
+            sw = rng.choice(np.arange(3, tj.size - 3), 3, replace=False)
+            for a_ in sw:
+                tj[[a_, a_ + 1]] = tj[[a_ + 1, a_]]
+                yj[[a_, a_ + 1]] = yj[[a_ + 1, a_]]
         with warnings.catch_warnings():
             warnings.simplefilter("ignore")
             tn, yn = dsp.fixtime((tj, yj), sr=sr, verbose=False)
+            tnp, ynp = dsp.fixtime((tj, yj), sr=sr, verbose=False, hold_previous_value=True)
+        ev += 2
+        order = np.argsort(tj, kind="stable")
+        ts_, ys_ = tj[order], yj[order]
+        for lab, tt, yy in (("nearest", tn, yn), ("previous", tnp, ynp)):
+            d = np.diff(tt)
+            if abs(d - 1 / sr).max() > 1e-9 / sr * max(1, abs(tt).max() * sr):
+                return ev, dict(what="fixtime output time base is not uniform (%s)" % lab, max_dev=float(abs(d - 1 / sr).max()))
+            if tt[0] > ts_[0] + 1.0 / sr or tt[-1] < ts_[-1] - 1.0 / sr:
+                return ev, dict(what="fixtime output does not span the input time range (%s)" % lab, t_first=float(tt[0]), t_last=float(tt[-1]), in_first=float(ts_[0]), in_last=float(ts_[-1]))
+            if lab == "nearest":
+                want = np.array([ys_[np.argmin(abs(ts_ - x))] for x in tt])
+            else:
+                want = np.array([ys_[max(np.searchsorted(ts_ - 1e-3 / sr, x, side="right") - 1, 0)] for x in tt])
+            if np.mean(want != yy) > 0.02:          # ties and the two end samples may legitimately differ
+                return ev, dict(what="fixtime samples are not the %s input samples" % lab, mismatch_fraction=float(np.mean(want != yy)), sr=sr)
+    # 3b. hold_previous_value with input denser than the output rate and generous tolerances, and with repeated time stamps
+    for it in range(4 if quick else 30):
+        sr = 100.0
+        dt = 1 / sr
+        n = 400
+        td = np.arange(n) / (4 * sr) + rng.uniform(-0.2, 0.2, n) / (4 * sr) + 3.0
+        td.sort()
+        yd = np.arange(n, dtype=float)                    # unique values identify the source sample
+        for tol in (1e-3, 0.5, 1.0):
+            with warnings.catch_warnings():
+                warnings.simplefilter("ignore")
+                tt, yy = dsp.fixtime((td, yd), sr=sr, verbose=False, hold_previous_value=True, previous_value_tol=tol)
+            ev += 1
+            want = np.array([yd[max(np.searchsorted(td - tol * dt, x, side="left") - 1, 0)] for x in tt])
+            if np.mean(want != yy) > 0.03:
+                return ev, dict(what="fixtime(hold_previous_value=True): output is not the LAST input sample within previous_value_tol*dt of each new time (input denser than sr)",
+                                previous_value_tol=tol, mismatch_fraction=float(np.mean(want != yy)))
+        # repeated time stamps on the grid: the last record with that stamp is the one in effect
+        tg = np.repeat(np.arange(60) * dt + 1.0, 2)
+        yg = np.arange(120, dtype=float)
+        with warnings.catch_warnings():
+            warnings.simplefilter("ignore")
+            tt, yy = dsp.fixtime((tg, yg), sr=sr, verbose=False, hold_previous_value=True)
         ev += 1
-        d = np.diff(tn)
-        if abs(d - 1 / sr).max() > 1e-9 / sr * max(1, abs(tn).max() * sr):
-            return ev, dict(what="fixtime output time base is not uniform", max_dev=float(abs(d - 1 / sr).max()))
-        near = np.array([yj[np.argmin(abs(tj - x))] for x in tn])
-        if np.mean(near != yn) > 0.02:      # ties/edge handling may differ for a handful of samples
-            return ev, dict(what="fixtime samples are not the nearest input samples", mismatch_fraction=float(np.mean(near != yn)))
+        want = np.array([yg[max(np.searchsorted(tg - 1e-3 * dt, x, side="left") - 1, 0)] for x in tt])
+        if np.mean(want != yy) > 0.05:
+            return ev, dict(what="fixtime(hold_previous_value=True) with repeated time stamps: the last record of a repeated stamp is not the one returned",
+                            mismatch_fraction=float(np.mean(want != yy)))
     # 4. Lanczos resampling of a band-limited signal
     tt = np.arange(400) / 400.0
     sig = np.sin(2 * np.pi * 7 * tt) + 0.5 * np.cos(2 * np.pi * 19 * tt + 0.3)
